@@ -329,8 +329,11 @@ impl Walrus {
             FileStateTracker::register_file_if_absent(file_path);
             debug_print!("[recovery] file {}", file_path);
 
+            // a segment that was created but never grown to its full size (crash inside
+            // create_new_file) is shorter than MAX_FILE_SIZE: never scan past what exists
+            let file_limit = MAX_FILE_SIZE.min(mmap.len() as u64);
             let mut block_offset: u64 = 0;
-            while block_offset + DEFAULT_BLOCK_SIZE <= MAX_FILE_SIZE {
+            while block_offset + DEFAULT_BLOCK_SIZE <= file_limit {
                 // heuristic: if first bytes are zero, assume no more blocks
                 let mut probe = [0u8; 8];
                 mmap.read(block_offset as usize, &mut probe);
@@ -340,7 +343,7 @@ impl Walrus {
                     // blocks behind it still have to be recovered, under their original ids
                     let mut later_data = false;
                     let mut off = block_offset + DEFAULT_BLOCK_SIZE;
-                    while off + DEFAULT_BLOCK_SIZE <= MAX_FILE_SIZE {
+                    while off + DEFAULT_BLOCK_SIZE <= file_limit {
                         mmap.read(off as usize, &mut probe);
                         if probe.iter().any(|&b| b != 0) {
                             later_data = true;
@@ -381,7 +384,7 @@ impl Walrus {
                 let mut block_limit = DEFAULT_BLOCK_SIZE;
                 if md.next_block_start > block_offset {
                     let extent = md.next_block_start - block_offset;
-                    if extent % DEFAULT_BLOCK_SIZE == 0 && block_offset + extent <= MAX_FILE_SIZE {
+                    if extent % DEFAULT_BLOCK_SIZE == 0 && block_offset + extent <= file_limit {
                         block_limit = extent;
                     }
                 }
